@@ -239,8 +239,17 @@ class World(object):
             raise core.HarnessError("create failed: %r" % (r,))
         return self._add(r["payload"]["uid"], "SymmetricKey", mask)
 
-    def keypair(self, mask_priv, mask_pub):
-        r = self.call(F.keypair_item(mask_priv, mask_pub, 1024))
+    def keypair(self, mask_priv, mask_pub, mask_common=None):
+        """mask_common: a usage mask in the Common Template-Attribute; it is what a key gets whose
+        own template names none (mask_priv / mask_pub None), and is overridden by one that does."""
+        it = F.keypair_item(mask_priv, mask_pub, 1024)
+        if mask_common is not None:
+            it["common"] = it["common"] + [["Cryptographic Usage Mask", mask_common]]
+            if mask_priv is None:
+                it["private"], mask_priv = [], mask_common
+            if mask_pub is None:
+                it["public"], mask_pub = [], mask_common
+        r = self.call(it)
         if r["status"] != "SUCCESS":
             raise core.HarnessError("create key pair failed: %r" % (r,))
         i, b1 = self._add(r["payload"]["priv"], "PrivateKey", mask_priv)
@@ -782,7 +791,7 @@ def gen_history(draw):
         kind = draw(st.sampled_from(["new"] * 3 + ["op"] * 20 + ["restart"] * 2 + ["noise"] * 2
                                     + ["batch"] * 5)) if nobj else "new"
         if kind == "new":
-            how = draw(st.sampled_from(["register"] * 6 + ["create", "create", "keypair"]))
+            how = draw(st.sampled_from(["register"] * 6 + ["create", "create", "keypair", "keypair"]))
             if how == "register":
                 steps.append({"do": "register", "mask": draw(gen_mask()), "otype": draw(st.sampled_from(
                     ["SymmetricKey"] * 3 + ["PrivateKey", "PublicKey"] * 2 + TYPES))})
@@ -795,6 +804,12 @@ def gen_history(draw):
                 nobj += 1
             else:
                 steps.append({"do": "keypair", "mp": draw(gen_mask()), "mu": draw(gen_mask())})
+                if draw(st.booleans()):
+                    # a mask in the common template too; one key in three inherits it
+                    steps[-1]["mc"] = draw(gen_mask())
+                    for k in ("mp", "mu"):
+                        if draw(st.integers(0, 2)) == 0:
+                            steps[-1][k] = None
                 kinds.extend(["PrivateKey", "PublicKey"])
                 nobj += 2
             last = nobj - 1
@@ -852,7 +867,7 @@ def run_history(spec):
                 elif do == "create":
                     _, b = w.create(s["mask"], s.get("len", 128))
                 else:
-                    _, _, b = w.keypair(s["mp"], s["mu"])
+                    _, _, b = w.keypair(s["mp"], s["mu"], s.get("mc"))
                 buckets.extend(b)
                 buckets.extend(w.passive(do.capitalize()))
                 continue
